@@ -72,3 +72,15 @@ Theorem C05_limits_match_source :
   WebpGen.Consts.mux_FourCCXMP = FCC_XMP.
 Proof. repeat split; reflexivity. Qed.
 Print Assumptions C05_limits_match_source.
+
+(** The OTHER container parser (internal/container/parser.go, the entry point of
+    webp.Decode / DecodeConfig / GetFeatures / image.Decode), modelled by the
+    riff-parser builder in Riff/ParserModel: on every byte string it returns a value
+    or an error class — no slice / index expression is out of range and its chunk
+    loops terminate within their fuel (proof: Riff/ParserSafety.parse_ex_safe,
+    restated here so that C05 covers both parsers). *)
+From Webp Require Riff.ParserModel Riff.ParserSafety.
+Theorem C05_parser_total : forall fx data, bytes_ok data ->
+  ParserModel.parse_ex fx data <> Panic /\ ParserModel.parse_ex fx data <> Err ParserModel.EOutOfFuel.
+Proof. exact ParserSafety.parse_ex_safe. Qed.
+Print Assumptions C05_parser_total.
